@@ -23,7 +23,7 @@ def main():
         key = f'{x!r}_{y!r}'
         with open(os.path.join(journal, 'exec.log'), 'a') as f:
             f.write(json.dumps([os.getpid(), float(x), float(y), time.time()]) + '\n')
-        if spec['mode'] == 'fresh' and fail:
+        if fail:
             # which case am I?  (dir name ends with _run_<n>)
             n = int(os.path.basename(dir_).split('_run_')[-1])
             if n in fail:
